@@ -1,4 +1,4 @@
-import Pr.Planner
+import Planner
 namespace Pl
 variable {V : Type} (O : VOrd V)
 
